@@ -208,16 +208,21 @@ def FragSpec (b : Backend) (d : Decl) (bank : Text) (f : FragObs) : Prop :=
 instance (b : Backend) (d : Decl) (bank : Text) (f : FragObs) : Decidable (FragSpec b d bank f) := by
   unfold FragSpec; cases d.element <;> exact inferInstance
 
-/-- miniAOD: one token per use — pairwise distinct, each declared exactly once with the
-container's token type and initialised exactly once with that use's bank; nothing else declared
-or initialised.  Other backends: no token at all. -/
+/-- the two lists hold the same lines, each as often (order is free) -/
+def SameLines (a b : List Text) : Prop := ∀ x ∈ a ++ b, a.count x = b.count x
+
+instance (a b : List Text) : Decidable (SameLines a b) := by unfold SameLines; exact inferInstance
+
+/-- miniAOD: one token per use — the tokens of the blocks are pairwise distinct; the class
+declares exactly these tokens, each once, with the container's token type; the constructor
+initialises exactly these tokens, each once, with the tag of that use's bank.  Other backends:
+no token at all. -/
 def TokenSpec (b : Backend) (ds : List (Decl × Text)) (o : Obs) : Prop :=
   match b with
   | .cmsMiniaod =>
-    (o.frags.map (·.tok)).Nodup ∧ o.classDecls.length = ds.length ∧ o.book.length = ds.length ∧
-    ∀ p ∈ ds.zip o.frags,
-      o.classDecls.count (expectedTokenDecl p.1.1 p.2.tok) = 1 ∧
-      o.book.count (expectedTokenInit p.1.1 (cppLit p.1.2) p.2.tok) = 1
+    (o.frags.map (·.tok)).Nodup ∧
+    SameLines o.classDecls ((ds.zip o.frags).map fun p => expectedTokenDecl p.1.1 p.2.tok) ∧
+    SameLines o.book ((ds.zip o.frags).map fun p => expectedTokenInit p.1.1 (cppLit p.1.2) p.2.tok)
   | _ => o.classDecls = [] ∧ o.book = [] ∧ ∀ f ∈ o.frags, f.tok = []
 
 instance (b : Backend) (ds : List (Decl × Text)) (o : Obs) : Decidable (TokenSpec b ds o) := by
@@ -314,7 +319,7 @@ def endsInDigit (t : Text) : Bool :=
 
 /-- proof frontier / C02's finding on `unique_name`: `name ++ index` is only injective for
 names that do not end in a digit -/
-def NameClean (n : Text) : Prop := endsInDigit n = false
+def NameClean (n : Text) : Prop := endsInDigit (lowerText n) = false
 
 def keysDistinct (md : Md) : Prop := (md.fields.map (·.1)).Nodup ∧ t!"metadata_type" ∉ md.fields.map (·.1)
 
